@@ -73,6 +73,9 @@ def histories(draw):
             ops.append(["new_model_bad", draw(st.sampled_from(BAD))])
         elif k == 9 and nmodels >= 2:
             ops.append(["xref", idx, draw(st.integers(0, nmodels - 1))])
+        elif k == 10 and nmodels >= 2:
+            # a pandas object with an IOSpec in one model, bound as a plain reference in another, then released there
+            ops.append(["share_df", idx, draw(st.integers(0, nmodels - 1)), draw(st.sampled_from(["del", "rebind", "close"]))])
         elif k <= 11:
             ops.append(["edit", idx, draw(st.integers(0, 3)), draw(st.integers(0, 99))])
         else:
@@ -297,6 +300,30 @@ def _run(case, out, root):
             handles[a].S.other = handles[b].S.c
             xrefs.add((a, b))
             touched.add(a)
+        elif k == "share_df":
+            a, b, how = op[1], op[2], op[3]
+            if a == b or a >= len(handles) or b >= len(handles) or not (is_open[a] and is_open[b]):
+                continue
+            import pandas as pd
+            df = pd.DataFrame({"v": [1, 2]}, index=pd.Index([0, 1], name="k"))
+            nm = "df%d" % i
+            try:
+                handles[a].new_pandas(nm, "data%d.csv" % i, df, file_type="csv")
+            except Exception as exc:
+                return out.fail("new-pandas-raised", "%r raised %r" % (op, exc), i)
+            before["desc"][a] = model_desc(handles[a])     # model a now has the spec: it must keep it
+            before["held"][a] = held(handles[a])
+            setattr(handles[b].S, nm, df)
+            touched.add(b)
+            if how == "del":
+                delattr(handles[b].S, nm)
+            elif how == "rebind":
+                setattr(handles[b].S, nm, 0)
+            else:
+                handles[b].close()
+                is_open[b] = False
+                del names[handles[b].name]
+                touched |= {x for x, y in xrefs if y == b}
         elif k == "edit":
             j = op[1]
             if j >= len(handles) or not is_open[j]:
